@@ -1,0 +1,44 @@
+//go:build verif
+
+package streampool
+
+import "slices"
+
+// VerifIndexSnapshot returns a copy of the pool's indexes: the number of
+// registered streams, the stream ids per peer and the stream ids per tag.
+// Read-only; used by the runtime-monitoring harness (build tag verif).
+func VerifIndexSnapshot(sp StreamPool) (streams int, byPeer, byTag map[string][]uint32) {
+	s, ok := sp.(*streamPool)
+	if !ok {
+		return 0, nil, nil
+	}
+	s.mu.Lock()
+	defer s.mu.Unlock()
+	byPeer = make(map[string][]uint32, len(s.streamIdsByPeer))
+	for k, v := range s.streamIdsByPeer {
+		byPeer[k] = slices.Clone(v)
+	}
+	byTag = make(map[string][]uint32, len(s.streamIdsByTag))
+	for k, v := range s.streamIdsByTag {
+		byTag[k] = slices.Clone(v)
+	}
+	return len(s.streams), byPeer, byTag
+}
+
+// VerifStreamIds returns the ids of the registered streams (sorted) together
+// with a copy of each stream's own tag list.
+func VerifStreamIds(sp StreamPool) (ids []uint32, tags map[uint32][]string) {
+	s, ok := sp.(*streamPool)
+	if !ok {
+		return nil, nil
+	}
+	s.mu.Lock()
+	defer s.mu.Unlock()
+	tags = make(map[uint32][]string, len(s.streams))
+	for id, st := range s.streams {
+		ids = append(ids, id)
+		tags[id] = slices.Clone(st.tags)
+	}
+	slices.Sort(ids)
+	return ids, tags
+}
